@@ -221,7 +221,7 @@ def run_one(ctx, exe, seed, idx, nofselgive, env=None):
 def run(ctx):
     exe = build.janet("plain")
     quick = ctx.tier == "quick"
-    total = 10000 if quick else 300000
+    total = 10000 if quick else 200000
     ctx.rule = ("random programs of 2-6 fibers x 1-6 operations over 1-3 channels with capacities 0..2: give, take, select/rselect with mixed take and give "
                 "clauses, close at any position, ev/sleep 0 yields, count/full observers; every given value is unique; half of the programs contain no "
                 "select give clause (so the known defects of that feature cannot mask the rest); non-trivial = at least one operation parked and was later "
